@@ -231,18 +231,18 @@ def sp_sign(tier):
     for l in LEVELS:
         ds = B.d_alphabet(l); hs = B.h_alphabet(l); tm = B.tape_menu(l); q = B.q_of(l)
         oids = B.oid_alphabet(long_form=full)
-        cross = full or l == 128
+        # thorough: the 4-way cross product; quick: l = 128 gets the two 3-way products (d x H x OID, d x H x tape / t) with the
+        # remaining dimension rotating, the other levels d x H x tape / t with a rotating OID
+        ok = [t for t in tm if not t[2]]
         for i, (dn, d) in enumerate(ds):
             Q = B.pub(l, d)
             for j, (hn, H) in enumerate(hs):
                 for o, (on, oid) in enumerate(oids):
-                    for t, (tn, tape, bad) in enumerate(tm):
-                        if bad:
-                            continue
-                        if cross or o == (i + j + t) % len(oids):
+                    for t, (tn, tape, bad) in enumerate(ok):
+                        if full or o == (i + j + t) % len(oids) or (l == 128 and t == (i + j + o) % len(ok)):
                             out.append(item('ref', 'bignSign', B.c_sign(l, oid, H, d, tape), '%s tape[%s]' % (hcls(l, H), tn.split('(')[0]), dict(pubkey=Q)))
                     for t, (tn, tv) in enumerate(B.T_ALPHABET):
-                        if cross or o == (i + j + t) % len(oids):
+                        if full or o == (i + j + t) % len(oids) or (l == 128 and t == (i + j + o) % 4):
                             out.append(item('ref', 'bignSign2', B.c_sign2(l, oid, H, d, tv), '%s t=%s' % (hcls(l, H), tn), dict(pubkey=Q)))
         for o, (on, oid) in enumerate(oids):
             for tn, tape, bad in tm:
@@ -288,7 +288,7 @@ def sp_idsign(tier):
                         if full or o == (i + j + m) % len(oids):
                             tp = rot(tm, i + 2 * j + 3 * m + o)
                             out.append(item('ref', 'bignIdSign', B.c_idsign(l, oid, H0, H, e, tp[1]), '%s tape[%s]' % (hcls(l, H), tp[0].split('(')[0]), dict(need_tp=1)))
-                    if cross or m == (i + j) % len(h0s):
+                    if full or m == (i + j) % len(h0s):
                         oid = rot(oids, i + j + m)[1]
                         for t, (tn, tv) in enumerate(B.T_ALPHABET):
                             out.append(item('ref', 'bignIdSign2', B.c_idsign2(l, oid, H0, H, e, tv), '%s t=%s' % (hcls(l, H), tn), dict(need_tp=1)))
